@@ -570,9 +570,9 @@ def gen_history(rng, length, p_unguarded=0.12):
 
         if k == "newArr":
             op["vals"] = [ri(-9, 10) for _ in range(rng.choice([1, 1, 2, 3, 3, 4]))]
-            op["how"] = rng.choice([0, 0, 1, 2, 3])    # 1 (single value): 0-d ndarray; 2: user subclass; 3: np.memmap
-            if op["how"] == 3 and not op["vals"]:
-                op["how"] = 0
+            # 1 (single value): 0-d ndarray; 2: user subclass.  np.memmap sources (how=3) are exercised by the constructor x
+            # attack matrix only: memmap slices that share no memory (empty ones) silently change class, outside the model
+            op["how"] = rng.choice([0, 0, 1, 2, 2])
         elif k == "sliceArr":
             a = pick_arr(plain=True)       # `.base` of views of ndarray subclasses is not collapsed by NumPy: outside the model
             n = lenA(a)
